@@ -103,6 +103,33 @@ pub fn run_case(v: &Value) -> Value {
             if let Some(r) = guarded(&format!("{}export_all_scripts", tag), &mut panics, || group.export_all_scripts()) {
                 sizes.insert(format!("{}scripts", tag), size_of(r));
             }
+            // a hot update of the scripts through the group API: the content of every inline module set again as it is, then
+            // a module under a new name - and every emitter once more (C01 quantifies over what is done to a group, not
+            // over input texts alone)
+            for p in paths.iter() {
+                let mods: Vec<(String, String)> = group
+                    .inline_script_module_names(p)
+                    .map(|x| x.map(|s| s.to_string()).collect::<Vec<_>>())
+                    .unwrap_or_default()
+                    .into_iter()
+                    .map(|n| {
+                        let c = group.inline_script_content(p, &n).map(|c| c.to_string()).unwrap_or_default();
+                        (n, c)
+                    })
+                    .collect();
+                for (n, c) in mods.iter() {
+                    let _ = guarded(&format!("{}hot:inline_script_start_line", tag), &mut panics, || group.inline_script_start_line(p, n).ok());
+                    let _ = guarded(&format!("{}hot:set_inline_script_content", tag), &mut panics, || group.set_inline_script_content(p, n, c).is_ok());
+                }
+                let _ = guarded(&format!("{}hot:set_inline_script_content(new)", tag), &mut panics, || {
+                    group.set_inline_script_content(p, "verif_late_module", "exports.a = 1").is_ok()
+                });
+                let _ = guarded(&format!("{}hot:get_tmpl_gen_object", tag), &mut panics, || group.get_tmpl_gen_object(p).map(|s| s.len()).ok());
+                let _ = guarded(&format!("{}hot:stringify_tmpl", tag), &mut panics, || group.stringify_tmpl(p).map(|s| s.len()));
+            }
+            let _ = guarded(&format!("{}hot:get_tmpl_gen_object_groups", tag), &mut panics, || group.get_tmpl_gen_object_groups().map(|s| s.len()).ok());
+            let _ = guarded(&format!("{}hot:get_wx_gen_object_groups", tag), &mut panics, || group.get_wx_gen_object_groups().map(|s| s.len()).ok());
+            let _ = guarded(&format!("{}hot:export_all_scripts", tag), &mut panics, || group.export_all_scripts().map(|s| s.len()).ok());
             if !dev {
                 if let Some(r) = guarded("get_runtime_string", &mut panics, || group.get_runtime_string()) {
                     sizes.insert("runtime".into(), json!(r.len()));
